@@ -184,6 +184,9 @@ def zb(raw):
     raise Unsupported('raw flag %r' % (raw,))
 
 
+ALWAYS_STANDIN = True       # corpus of look-alike keys (twins, subclasses, big ints) runs natively on every change
+
+
 def tasks(tier):
     ts = []
     for kind in ('Disk', 'JSONDisk'):
@@ -197,7 +200,16 @@ def tasks(tier):
     ts += [('contracts.iteration', 'iter_task', ('C02', True)), ('contracts.iteration', 'iter_task', ('C02', False)),
            ('contracts.iteration', 'iterkeys_task', ('C02', False)), ('contracts.iteration', 'iterkeys_task', ('C02', True)),
            ('contracts.iteration', 'dbval_order_lemma', ('C02',))]
+    # every lookup site addresses an entry by (key, raw) -- the dictionary contracts of the Cache methods (one
+    # eviction policy in the quick tier): an operation on a key never reads or writes the entry of its twin
+    from contracts import c03
+    ts += c03.dependency_tasks('C02', c03.METHODS, tier=tier)
     return ts
+
+
+def post_process(results, tier):
+    from contracts import c03 as _c03
+    return _c03.dependency_rename('C02', results)
 
 
 def meta(results, tier):
